@@ -40,6 +40,11 @@ CHECKS = {
    text="Three generated metamorphic relations, all comparing complete trajectories (snapshot after every Step) exactly: (order/dup) the configuration's Set* calls in a drawn permutation with the initial-points call at a drawn position (RNG reseeded right before it only) and setters optionally repeated vs the canonical order; (map) DE2 under harness-owned maps that evaluate in reversed/shuffled order, in threads or in forked processes vs python_map; (ensemble) Lattice/Buckshot with Nelder-Mead/Powell members under each map and in step-wise vs run-to-completion mode (best, per-member bests, per-member and total evaluations, iterations). Exploration only.",
    note="Trusted: the harness maps return results in index order (the map contract); thread/process schedules are sampled by the OS. Open known finding F21 (tight=True ranges draw from the global random stream).",
    design="DESIGN.md section 5, C07"),
+ 'C08': dict(
+   technique="property-based differential testing (Hypothesis @given) against harness-owned reference implementations (scipy fmin Nelder-Mead loop, Powell direction-set method) and the installed scipy; existential donor search for DE trial vectors; statistical crossover test",
+   text="Generated unconstrained problems: NelderMeadSimplexSolver (every Step) and fmin must equal a harness-owned transcription of scipy.optimize.fmin exactly (simplex, counts, warnflag) and the installed scipy.optimize.fmin in counts/result (near-tie guard when x0 has exact zeros, where mystic's zdelt differs by one ulp); PowellDirectionalSolver (every Step: x, fval, direction set, call count) and fmin_powell must equal a harness-owned transcription of Powell's method given mystic's own Brent exactly, with the vendored scipy-0.6 fmin_powell as second opinion; brent is checked against its own record and the installed scipy.optimize.brent. Every DE/DE2 trial vector (ten strategies, CR incl. 0/1) must be explained by some choice of distinct donors with every component bit-equal to the parent's or the strategy formula's value, mutated positions forming a circular run (exp) / non-empty set (bin), everything at CR=1; selection replaces a member iff the recorded trial energy is strictly lower (plateau cost makes ties occur); crossover run-length statistics within 6 sigma. Exploration only.",
+   note="Trusted: vp/refs.py transcriptions; installed scipy 1.18 (fmin, brent). Powell's reference is given mystic's brent by design (the property says so). Open known findings F9a (four *Bin strategies use exponential crossover) and F9b (*Exp may mutate nothing).",
+   design="DESIGN.md section 5, C08"),
  'C10': dict(
    technique="property-based testing (Hypothesis @given): generated fake solver states x generated And/Or/When trees, checked against the documented inequalities evaluated directly and recursive all/any",
    text="Generated-input search: every built-in condition is compared with its documented inequality (three-valued oracle; undecided inf-inf cases excluded and counted) on generated histories incl. plateaus, ties, +-inf, windows 0/None/longer than the history and tolerances exactly on the boundary; And/Or/When trees to depth 4 are compared with recursive all/any, info strings must name exactly satisfied leaves, and every leaf is rebuilt from type()/state() and must behave identically. Exploration only: held on all generated cases, no proof of absence.",
